@@ -14,7 +14,7 @@ pub fn prop() -> Prop {
     Prop {
         id: "C09",
         level: "model_checking",
-        rule: "all streams of <=4 (thorough <=5) rows {k,v,id} over the group keys {\"a\",\"b\",\"\",\"é\",1,null,absent} (including the empty stream and streams whose every row is dropped) x 11 upstream pipelines (none, select, select of the key only (so that rows repeat), filter, unique, sort by id desc, sort by the mixed-type key, skip+take, split, take 0, select+sort+skip+take) x {--group-by=.k, --group-by=(get . \"k\"), --merge} x {json, text output}; long cyclic streams of 17 and 40 rows; non-trivial = two rows share a key or a row is dropped for its key; distinct by construction",
+        rule: "all streams of <=4 (thorough <=6) rows {k,v,id} over the group keys {\"a\",\"b\",\"\",\"é\",1,null,absent} (including the empty stream and streams whose every row is dropped) x 11 upstream pipelines (none, select, select of the key only (so that rows repeat), filter, unique, sort by id desc, sort by the mixed-type key, skip+take, split, take 0, select+sort+skip+take) x {--group-by=.k, --group-by=(get . \"k\"), --merge} x {json, text output}; long cyclic streams of 17, 40, 300 and 1100 rows; non-trivial = two rows share a key or a row is dropped for its key; distinct by construction",
         explanation: "exactly one value must be printed, after the input ended; it is compared (a) with the documented grouping applied to the rows the same pipeline prints without grouping (differential) and (b) with the reference pipeline",
         assumptions: COMMON_ASSUMPTIONS.to_vec(),
         guards: vec!["empty-input", "no-row-survives", "non-string-key-dropped", "absent-key-dropped", "two-rows-share-a-key", "limiter-before-grouper", "empty-string-key", "non-ascii-key", "text-output"],
@@ -200,7 +200,7 @@ fn explore(ctx: &mut Ctx, up: &Up, rows: &[V]) {
 fn run(ctx: &mut Ctx) {
     let ks = keys();
     let ups = upstreams();
-    let maxlen = ctx.tier.pick(4usize, 5);
+    let maxlen = ctx.tier.pick(4usize, 6);
     for len in 0..=maxlen {
         let mut todo: Vec<Vec<usize>> = Vec::new();
         crate::explore::seqs_exact(ks.len(), len, |i| todo.push(i.to_vec()));
@@ -219,15 +219,15 @@ fn run(ctx: &mut Ctx) {
         }
         ctx.level_done(&format!("all-streams-of-{len}-rows"));
     }
-    for total in [17usize, 40] {
-        for blen in 1..=ctx.tier.pick(2usize, 3) {
+    for total in [17usize, 40, 300, 1100] {
+        for blen in 1..=(if total > 40 { 1 } else { ctx.tier.pick(2usize, 3) }) {
             let mut todo: Vec<Vec<usize>> = Vec::new();
             crate::explore::seqs_exact(ks.len(), blen, |i| todo.push(i.to_vec()));
             for base in todo {
                 if !ctx.mine() {
                     continue;
                 }
-                let idx: Vec<usize> = (0..total).map(|i| base[i % base.len()]).collect();
+                let idx: Vec<usize> = if total > 40 { (0..total).map(|i| (i * 5 + i / 3 + base[0]) % ks.len()).collect() } else { (0..total).map(|i| base[i % base.len()]).collect() };
                 let rows = pipe::rows_from(&ks, &idx);
                 for up in &ups {
                     explore(ctx, up, &rows);
